@@ -1,4 +1,4 @@
-/- C08 — helper lemmas for the object-pool model (core Lean only). -/
+/- C08 — helper lemmas for the object-pool model with re-entrant calls (core Lean only). -/
 import TboxModel.C08.Model
 namespace Tbox.C08
 
@@ -42,8 +42,9 @@ theorem blocksOf_set_none (l : List (Option (Nat × Nat))) (h b v : Nat) (hh : l
               simp only [blocksOf, List.set_cons_succ, List.filterMap_cons_some (Option.map_some ..)] at this ⊢
               exact (List.Perm.cons _ this).trans (List.Perm.swap _ _ _)
 
-/-- the pool invariant, stated against the list `L` of blocks currently holding an object -/
-structure PI (p : Pool) (L : List Nat) : Prop where
+/-- the pool invariant against the list `L` of blocks in use (live objects and objects whose
+constructor / destructor is running), `nA` calls of `alloc` and `nF` calls of `free` in progress -/
+structure PI (p : Pool) (L : List Nat) (nA nF : Nat) : Prop where
   parkedNodup : p.parked.Nodup
   liveNodup : L.Nodup
   disjoint : ∀ b, b ∈ p.parked → b ∉ L
@@ -51,199 +52,354 @@ structure PI (p : Pool) (L : List Nat) : Prop where
   relDisj : ∀ b, b ∈ p.released → b ∉ p.parked ∧ b ∉ L
   freeNum : p.freeNum = p.parked.length
   keep : p.parked.length ≤ p.keep
-  balance : p.ctor = p.dtor + L.length + p.leaked
-  statBal : p.stat.allocT = p.stat.freeT + L.length
-  statPeakA : L.length ≤ p.stat.peakA
+  balance : p.ctor + nF = p.dtor + L.length + p.leaked
+  statBal : p.stat.allocT + nA = p.stat.freeT + L.length
+  statPeakA : L.length ≤ p.stat.peakA + nA
   statPeakF : p.parked.length ≤ p.stat.peakF
 
-def PInv (s : PoolSys) : Prop := PI s.pool s.liveBlocks
+theorem PI_perm (p : Pool) (L L' : List Nat) (nA nF : Nat) (hi : PI p L nA nF) (hp : L.Perm L') : PI p L' nA nF := by
+  have hm : ∀ x, x ∈ L' ↔ x ∈ L := fun x => hp.mem_iff.symm
+  have hl := hp.length_eq
+  refine ⟨hi.parkedNodup, hp.nodup_iff.1 hi.liveNodup, ?_, ?_, ?_, hi.freeNum, hi.keep, ?_, ?_, ?_, hi.statPeakF⟩
+  · intro b hb; rw [hm]; exact hi.disjoint b hb
+  · intro b hb; rw [hm] at hb; exact hi.fresh b hb
+  · intro b hb; rw [hm]; exact hi.relDisj b hb
+  · rw [← hl]; exact hi.balance
+  · rw [← hl]; exact hi.statBal
+  · rw [← hl]; exact hi.statPeakA
 
-theorem pinit_inv : PInv PoolSys.init := by
-  have : PoolSys.init.liveBlocks = [] := by simp [PoolSys.init, PoolSys.liveBlocks]
-  unfold PInv; rw [this]
-  refine ⟨?_, ?_, ?_, ?_, ?_, rfl, ?_, ?_, ?_, ?_, ?_⟩ <;> simp [PoolSys.init]
-
-theorem PI_free (p : Pool) (L L' : List Nat) (b : Nat) (hi : PI p L) (hperm : L.Perm (b :: L')) :
-    PI (p.free b) L' ∧ (p.free b).dtor = p.dtor + 1 ∧ (p.free b).ctor = p.ctor := by
-  have hmem : ∀ x, x ∈ L ↔ x = b ∨ x ∈ L' := by
-    intro x; rw [hperm.mem_iff]; simp
-  have hnd : (b :: L').Nodup := hperm.nodup_iff.1 hi.liveNodup
-  have hlen := hperm.length_eq
-  have hbl : b ∈ L := (hmem b).2 (Or.inl rfl)
-  have hbp : b ∉ p.parked := fun hp => hi.disjoint b hp hbl
-  have hbr : b ∉ p.released := fun hr => (hi.relDisj b hr).2 hbl
-  have hnb : b ∉ L' := (List.nodup_cons.1 hnd).1
-  refine ⟨?_, ?_, ?_⟩
-  · by_cases hk : p.freeNum < p.keep
-    · refine ⟨?_, (List.nodup_cons.1 hnd).2, ?_, ?_, ?_, ?_, ?_, ?_, ?_, ?_, ?_⟩
-      · simp [Pool.free, hk]; exact ⟨hbp, hi.parkedNodup⟩
-      · intro x hx
-        simp [Pool.free, hk] at hx
-        rcases hx with hx | hx
-        · subst hx; exact hnb
-        · intro hx'; exact hi.disjoint x hx ((hmem x).2 (Or.inr hx'))
-      · intro x hx
-        simp [Pool.free, hk] at hx ⊢
-        rcases hx with (hx | hx) | hx | hx
-        · subst hx; exact hi.fresh _ (Or.inr (Or.inl hbl))
-        · exact hi.fresh x (Or.inl hx)
-        · exact hi.fresh x (Or.inr (Or.inl ((hmem x).2 (Or.inr hx))))
-        · exact hi.fresh x (Or.inr (Or.inr hx))
-      · intro x hx
-        simp [Pool.free, hk] at hx ⊢
-        have := hi.relDisj x hx
-        refine ⟨⟨?_, this.1⟩, ?_⟩
-        · intro hxb; subst hxb; exact hbr hx
-        · intro hx'; exact this.2 ((hmem x).2 (Or.inr hx'))
-      · have hk' : p.parked.length < p.keep := hi.freeNum ▸ hk
-        simp [Pool.free, hi.freeNum, hk']
-      · have := hi.freeNum; simp [Pool.free, hk]; omega
-      · have := hi.balance
-        simp [Pool.free, hk] at hlen ⊢; omega
-      · have := hi.statBal
-        simp [Pool.free, hk] at hlen ⊢; omega
-      · have := hi.statPeakA
-        simp [Pool.free, hk] at hlen ⊢; omega
-      · have h1 := hi.statPeakF; have h2 := hi.freeNum
-        have hk' : p.parked.length < p.keep := h2 ▸ hk
-        simp only [Pool.free, h2, hk', if_true, List.length_cons]
-        split <;> omega
-    · refine ⟨?_, (List.nodup_cons.1 hnd).2, ?_, ?_, ?_, ?_, ?_, ?_, ?_, ?_, ?_⟩
-      · simp [Pool.free, hk]; exact hi.parkedNodup
-      · intro x hx
-        simp [Pool.free, hk] at hx
-        intro hx'; exact hi.disjoint x hx ((hmem x).2 (Or.inr hx'))
-      · intro x hx
-        simp [Pool.free, hk] at hx ⊢
-        rcases hx with hx | hx | hx | hx
-        · exact hi.fresh x (Or.inl hx)
-        · exact hi.fresh x (Or.inr (Or.inl ((hmem x).2 (Or.inr hx))))
-        · subst hx; exact hi.fresh _ (Or.inr (Or.inl hbl))
-        · exact hi.fresh x (Or.inr (Or.inr hx))
-      · intro x hx
-        simp [Pool.free, hk] at hx ⊢
-        rcases hx with hx | hx
-        · subst hx; exact ⟨hbp, hnb⟩
-        · have := hi.relDisj x hx
-          exact ⟨this.1, fun hx' => this.2 ((hmem x).2 (Or.inr hx'))⟩
-      · have hk' : ¬ p.parked.length < p.keep := hi.freeNum ▸ hk
-        simp [Pool.free, hi.freeNum, hk']
-      · have := hi.keep; simp [Pool.free, hk]; exact this
-      · have := hi.balance
-        simp [Pool.free, hk] at hlen ⊢; omega
-      · have := hi.statBal
-        simp [Pool.free, hk] at hlen ⊢; omega
-      · have := hi.statPeakA
-        simp [Pool.free, hk] at hlen ⊢; omega
-      · have h1 := hi.statPeakF
-        simp [Pool.free, hk]; exact h1
-  · simp only [Pool.free]; split <;> rfl
-  · simp only [Pool.free]; split <;> rfl
-
-theorem PI_alloc (p : Pool) (L L' : List Nat) (hi : PI p L) (hperm : L'.Perm (p.alloc.2 :: L)) :
-    PI p.alloc.1 L' ∧ p.alloc.2 ∉ L ∧ p.alloc.2 ∉ p.released ∧
-    p.alloc.1.ctor = p.ctor + 1 ∧ p.alloc.1.dtor = p.dtor := by
-  have hmem : ∀ x, x ∈ L' ↔ x = p.alloc.2 ∨ x ∈ L := by
-    intro x; rw [hperm.mem_iff]; simp
-  have hlen := hperm.length_eq
+/-- `alloc()` takes its block and enters the constructor -/
+theorem PI_allocA (p : Pool) (L : List Nat) (nA nF : Nat) (hi : PI p L nA nF) :
+    PI p.allocA.1.ctorEnter (p.allocA.2 :: L) (nA + 1) nF ∧ p.allocA.2 ∉ L ∧ p.allocA.2 ∉ p.released := by
   cases hp : p.parked with
   | nil =>
-      have hb : p.alloc.2 = p.nextBlk := by simp [Pool.alloc, hp]
+      have hb : p.allocA.2 = p.nextBlk := by simp [Pool.allocA, hp]
       have hnl : p.nextBlk ∉ L := fun hx => Nat.lt_irrefl _ (hi.fresh _ (Or.inr (Or.inl hx)))
       have hnr : p.nextBlk ∉ p.released := fun hx => Nat.lt_irrefl _ (hi.fresh _ (Or.inr (Or.inr hx)))
-      refine ⟨⟨?_, ?_, ?_, ?_, ?_, ?_, ?_, ?_, ?_, ?_, ?_⟩, hb ▸ hnl, hb ▸ hnr, by simp [Pool.alloc, hp], by simp [Pool.alloc, hp]⟩
-      · simp [Pool.alloc, hp]
-      · rw [hperm.nodup_iff, List.nodup_cons, hb]
-        exact ⟨hnl, hi.liveNodup⟩
-      · intro x hx; simp [Pool.alloc, hp] at hx
+      refine ⟨⟨?_, ?_, ?_, ?_, ?_, ?_, ?_, ?_, ?_, ?_, ?_⟩, hb ▸ hnl, hb ▸ hnr⟩
+      · simp [Pool.allocA, Pool.ctorEnter, hp]
+      · rw [List.nodup_cons, hb]; exact ⟨hnl, hi.liveNodup⟩
+      · intro x hx; simp [Pool.allocA, Pool.ctorEnter, hp] at hx
       · intro x hx
-        rw [hmem, hb] at hx
-        simp [Pool.alloc, hp] at hx ⊢
+        rw [hb] at hx
+        simp [Pool.allocA, Pool.ctorEnter, hp] at hx ⊢
         rcases hx with (hx | hx) | hx
         · omega
         · have := hi.fresh x (Or.inr (Or.inl hx)); omega
         · have := hi.fresh x (Or.inr (Or.inr hx)); omega
       · intro x hx
-        rw [hmem, hb]
-        simp [Pool.alloc, hp] at hx ⊢
+        rw [hb]
+        simp [Pool.allocA, Pool.ctorEnter, hp] at hx ⊢
         have := hi.relDisj x hx
         refine ⟨?_, this.2⟩
         intro hxb; subst hxb; exact hnr hx
-      · have := hi.freeNum; simp [Pool.alloc, hp] at this ⊢; exact this
-      · simp [Pool.alloc, hp]
-      · have := hi.balance
-        simp [Pool.alloc, hp] at hlen ⊢; omega
-      · have := hi.statBal
-        simp [Pool.alloc, hp] at hlen ⊢; omega
-      · have h1 := hi.statPeakA; have h2 := hi.statBal
-        simp [Pool.alloc, hp] at hlen ⊢; split <;> omega
-      · simp [Pool.alloc, hp]
+      · have := hi.freeNum; simp [Pool.allocA, Pool.ctorEnter, hp] at this ⊢; exact this
+      · simp [Pool.allocA, Pool.ctorEnter, hp]
+      · have := hi.balance; simp [Pool.allocA, Pool.ctorEnter, hp]; omega
+      · have := hi.statBal; simp [Pool.allocA, Pool.ctorEnter, hp]; omega
+      · have := hi.statPeakA; simp [Pool.allocA, Pool.ctorEnter, hp]; omega
+      · simp [Pool.allocA, Pool.ctorEnter, hp]
   | cons b rest =>
-      have hb : p.alloc.2 = b := by simp [Pool.alloc, hp]
+      have hb : p.allocA.2 = b := by simp [Pool.allocA, hp]
       have hbp : b ∈ p.parked := by rw [hp]; simp
       have hnl : b ∉ L := hi.disjoint b hbp
       have hnr : b ∉ p.released := fun hx => (hi.relDisj b hx).1 hbp
       have hnd := hi.parkedNodup; rw [hp] at hnd
-      refine ⟨⟨?_, ?_, ?_, ?_, ?_, ?_, ?_, ?_, ?_, ?_, ?_⟩, hb ▸ hnl, hb ▸ hnr, by simp [Pool.alloc, hp], by simp [Pool.alloc, hp]⟩
-      · simp [Pool.alloc, hp]; exact (List.nodup_cons.1 hnd).2
-      · rw [hperm.nodup_iff, List.nodup_cons, hb]
-        exact ⟨hnl, hi.liveNodup⟩
+      refine ⟨⟨?_, ?_, ?_, ?_, ?_, ?_, ?_, ?_, ?_, ?_, ?_⟩, hb ▸ hnl, hb ▸ hnr⟩
+      · simp [Pool.allocA, Pool.ctorEnter, hp]; exact (List.nodup_cons.1 hnd).2
+      · rw [List.nodup_cons, hb]; exact ⟨hnl, hi.liveNodup⟩
       · intro x hx
-        rw [hmem, hb]
-        simp [Pool.alloc, hp] at hx
+        rw [hb]
+        simp [Pool.allocA, Pool.ctorEnter, hp] at hx
         have hxp : x ∈ p.parked := by rw [hp]; simp [hx]
-        intro hx'
-        rcases hx' with hx' | hx'
-        · subst hx'; exact (List.nodup_cons.1 hnd).1 hx
-        · exact hi.disjoint x hxp hx'
+        simp only [List.mem_cons, not_or]
+        refine ⟨?_, hi.disjoint x hxp⟩
+        intro e; subst e; exact (List.nodup_cons.1 hnd).1 hx
       · intro x hx
-        rw [hmem, hb] at hx
-        simp [Pool.alloc, hp] at hx ⊢
+        rw [hb] at hx
+        simp [Pool.allocA, Pool.ctorEnter, hp] at hx ⊢
         rcases hx with hx | (hx | hx) | hx
         · exact hi.fresh x (Or.inl (by rw [hp]; simp [hx]))
         · subst hx; exact hi.fresh _ (Or.inl hbp)
         · exact hi.fresh x (Or.inr (Or.inl hx))
         · exact hi.fresh x (Or.inr (Or.inr hx))
       · intro x hx
-        rw [hmem, hb]
-        simp [Pool.alloc, hp] at hx ⊢
+        rw [hb]
+        simp [Pool.allocA, Pool.ctorEnter, hp] at hx ⊢
         have := hi.relDisj x hx
         rw [hp] at this
         simp at this
         refine ⟨this.1.2, ?_, this.2⟩
         intro hxb; subst hxb; exact hnr hx
-      · have := hi.freeNum; simp [Pool.alloc, hp] at this ⊢; omega
-      · have := hi.keep; simp [Pool.alloc, hp] at this ⊢; omega
-      · have := hi.balance
-        simp [Pool.alloc, hp] at hlen ⊢; omega
-      · have := hi.statBal
-        simp [Pool.alloc, hp] at hlen ⊢; omega
-      · have h1 := hi.statPeakA; have h2 := hi.statBal
-        simp [Pool.alloc, hp] at hlen ⊢; split <;> omega
-      · have := hi.statPeakF; simp [Pool.alloc, hp] at this ⊢; omega
+      · have := hi.freeNum; simp [Pool.allocA, Pool.ctorEnter, hp] at this ⊢; omega
+      · have := hi.keep; simp [Pool.allocA, Pool.ctorEnter, hp] at this ⊢; omega
+      · have := hi.balance; simp [Pool.allocA, Pool.ctorEnter, hp]; omega
+      · have := hi.statBal; simp [Pool.allocA, Pool.ctorEnter, hp]; omega
+      · have := hi.statPeakA; simp [Pool.allocA, Pool.ctorEnter, hp]; omega
+      · have := hi.statPeakF; simp [Pool.allocA, Pool.ctorEnter, hp] at this ⊢; omega
 
-/-- freeing the object in slot `h` -/
-theorem free_slot_inv (s : PoolSys) (h b v : Nat) (hi : PInv s) (hh : s.slots[h]? = some (some (b, v))) :
-    PInv { pool := s.pool.free b, slots := s.slots.set h none } ∧
-    (s.pool.free b).dtor = s.pool.dtor + 1 ∧ (s.pool.free b).ctor = s.pool.ctor :=
-  PI_free s.pool _ _ b hi (blocksOf_set_none s.slots h b v hh)
+/-- the constructor has returned: statistics -/
+theorem PI_allocB (p : Pool) (L : List Nat) (nA nF : Nat) (hi : PI p L (nA + 1) nF) : PI p.allocB L nA nF := by
+  refine ⟨hi.parkedNodup, hi.liveNodup, hi.disjoint, hi.fresh, hi.relDisj, hi.freeNum, hi.keep, hi.balance, ?_, ?_, hi.statPeakF⟩
+  · have := hi.statBal; simp [Pool.allocB]; omega
+  · have h1 := hi.statBal; have h2 := hi.statPeakA
+    simp only [Pool.allocB]; split <;> omega
 
-/-- constructing an object for the empty slot `h` -/
-theorem alloc_slot_inv (s : PoolSys) (h v : Nat) (hi : PInv s) (hh : s.slots[h]? = some none) :
-    PInv { pool := s.pool.alloc.1, slots := s.slots.set h (some (s.pool.alloc.2, v)) } ∧
-    s.pool.alloc.2 ∉ s.liveBlocks ∧ s.pool.alloc.2 ∉ s.pool.released ∧
-    s.pool.alloc.1.ctor = s.pool.ctor + 1 ∧ s.pool.alloc.1.dtor = s.pool.dtor :=
-  PI_alloc s.pool _ _ hi (blocksOf_set_some s.slots h s.pool.alloc.2 v hh)
+theorem PI_dtorEnter (p : Pool) (L : List Nat) (nA nF : Nat) (hi : PI p L nA nF) : PI p.dtorEnter L nA (nF + 1) := by
+  refine ⟨hi.parkedNodup, hi.liveNodup, hi.disjoint, hi.fresh, hi.relDisj, hi.freeNum, hi.keep, ?_, hi.statBal, hi.statPeakA, hi.statPeakF⟩
+  have := hi.balance; simp [Pool.dtorEnter]; omega
 
-theorem freeSlots_inv (s : PoolSys) (hs : List Nat) (hi : PInv s) : PInv (s.freeSlots hs) := by
+/-- the destructor has returned: the block `b` (in use until now) is parked or released -/
+theorem PI_freeB (p : Pool) (L : List Nat) (nA nF b : Nat) (hi : PI p (b :: L) nA (nF + 1)) :
+    PI (p.freeB b) L nA nF := by
+  have hnd := hi.liveNodup
+  have hbl : b ∈ b :: L := by simp
+  have hbp : b ∉ p.parked := fun hp => hi.disjoint b hp hbl
+  have hbr : b ∉ p.released := fun hr => (hi.relDisj b hr).2 hbl
+  have hnb : b ∉ L := (List.nodup_cons.1 hnd).1
+  have hk' : (p.freeNum < p.keep) = (p.parked.length < p.keep) := by rw [hi.freeNum]
+  by_cases hk : p.parked.length < p.keep
+  · refine ⟨?_, (List.nodup_cons.1 hnd).2, ?_, ?_, ?_, ?_, ?_, ?_, ?_, ?_, ?_⟩
+    · simp [Pool.freeB, hk', hk]; exact ⟨hbp, hi.parkedNodup⟩
+    · intro x hx
+      simp [Pool.freeB, hk', hk] at hx
+      rcases hx with hx | hx
+      · subst hx; exact hnb
+      · intro hx'; exact hi.disjoint x hx (List.mem_cons_of_mem _ hx')
+    · intro x hx
+      simp [Pool.freeB, hk', hk] at hx ⊢
+      rcases hx with (hx | hx) | hx | hx
+      · subst hx; exact hi.fresh _ (Or.inr (Or.inl hbl))
+      · exact hi.fresh x (Or.inl hx)
+      · exact hi.fresh x (Or.inr (Or.inl (List.mem_cons_of_mem _ hx)))
+      · exact hi.fresh x (Or.inr (Or.inr hx))
+    · intro x hx
+      simp [Pool.freeB, hk', hk] at hx ⊢
+      have := hi.relDisj x hx
+      refine ⟨⟨?_, this.1⟩, ?_⟩
+      · intro hxb; subst hxb; exact hbr hx
+      · intro hx'; exact this.2 (List.mem_cons_of_mem _ hx')
+    · simp [Pool.freeB, hk', hk, hi.freeNum]
+    · simp [Pool.freeB, hk', hk]; omega
+    · have := hi.balance; simp [Pool.freeB, hk', hk] at this ⊢; omega
+    · have := hi.statBal; simp [Pool.freeB, hk', hk] at this ⊢; omega
+    · have := hi.statPeakA; simp [Pool.freeB, hk', hk] at this ⊢; omega
+    · have h1 := hi.statPeakF; have h2 := hi.freeNum
+      simp only [Pool.freeB, hk', hk, if_true, h2, List.length_cons]
+      split <;> omega
+  · refine ⟨?_, (List.nodup_cons.1 hnd).2, ?_, ?_, ?_, ?_, ?_, ?_, ?_, ?_, ?_⟩
+    · simp [Pool.freeB, hk', hk]; exact hi.parkedNodup
+    · intro x hx
+      simp [Pool.freeB, hk', hk] at hx
+      intro hx'; exact hi.disjoint x hx (List.mem_cons_of_mem _ hx')
+    · intro x hx
+      simp [Pool.freeB, hk', hk] at hx ⊢
+      rcases hx with hx | hx | hx | hx
+      · exact hi.fresh x (Or.inl hx)
+      · exact hi.fresh x (Or.inr (Or.inl (List.mem_cons_of_mem _ hx)))
+      · subst hx; exact hi.fresh _ (Or.inr (Or.inl hbl))
+      · exact hi.fresh x (Or.inr (Or.inr hx))
+    · intro x hx
+      simp [Pool.freeB, hk', hk] at hx ⊢
+      rcases hx with hx | hx
+      · subst hx; exact ⟨hbp, hnb⟩
+      · have := hi.relDisj x hx
+        exact ⟨this.1, fun hx' => this.2 (List.mem_cons_of_mem _ hx')⟩
+    · simp [Pool.freeB, hk', hk, hi.freeNum]
+    · have := hi.keep; simp [Pool.freeB, hk', hk]; exact this
+    · have := hi.balance; simp [Pool.freeB, hk', hk] at this ⊢; omega
+    · have := hi.statBal; simp [Pool.freeB, hk', hk] at this ⊢; omega
+    · have := hi.statPeakA; simp [Pool.freeB, hk', hk] at this ⊢; omega
+    · have h1 := hi.statPeakF; simp [Pool.freeB, hk', hk]; exact h1
+
+/-! ### the system: slots, calls in progress -/
+
+def nAlloc (s : PoolSys) : Nat := s.stack.countP Frame.isAlloc
+def nFree (s : PoolSys) : Nat := s.stack.countP (fun f => !f.isAlloc)
+
+structure SInv (s : PoolSys) : Prop where
+  pi : PI s.pool s.inUse (nAlloc s) (nFree s)
+  resv : ∀ f h, f ∈ s.stack → f.target = some h → s.slots[h]? = some none
+  uniq : s.stack.Pairwise (fun f g => f.target = none ∨ f.target ≠ g.target)
+
+theorem cntA_allocF (h v b : Nat) (st : List Frame) :
+    List.countP Frame.isAlloc (Frame.allocF h v b :: st) = List.countP Frame.isAlloc st + 1 := by
+  simp [List.countP_cons, Frame.isAlloc]
+theorem cntF_allocF (h v b : Nat) (st : List Frame) :
+    List.countP (fun f => !f.isAlloc) (Frame.allocF h v b :: st) = List.countP (fun f => !f.isAlloc) st := by
+  simp [List.countP_cons, Frame.isAlloc]
+theorem cntA_freeF (h b : Nat) (st : List Frame) :
+    List.countP Frame.isAlloc (Frame.freeF h b :: st) = List.countP Frame.isAlloc st := by
+  simp [List.countP_cons, Frame.isAlloc]
+theorem cntF_freeF (h b : Nat) (st : List Frame) :
+    List.countP (fun f => !f.isAlloc) (Frame.freeF h b :: st) = List.countP (fun f => !f.isAlloc) st + 1 := by
+  simp [List.countP_cons, Frame.isAlloc]
+
+theorem pinit_inv : SInv PoolSys.init := by
+  have : PoolSys.init.inUse = [] := by simp [PoolSys.init, PoolSys.inUse, PoolSys.liveBlocks]
+  refine ⟨?_, by simp [PoolSys.init], by simp [PoolSys.init]⟩
+  rw [this]
+  refine ⟨?_, ?_, ?_, ?_, ?_, rfl, ?_, ?_, ?_, ?_, ?_⟩ <;> simp [PoolSys.init, nAlloc, nFree]
+
+theorem reserved_false (s : PoolSys) (h : Nat) (hr : s.reserved h = false) :
+    ∀ f, f ∈ s.stack → f.target ≠ some h := by
+  intro f hf e
+  have : s.reserved h = true := by
+    simp only [PoolSys.reserved, List.any_eq_true]
+    exact ⟨f, hf, by simp [e]⟩
+  rw [hr] at this; cases this
+
+/-- one event keeps the invariant; a block in which a constructor starts is not in use and was not released -/
+theorem ev_inv (s : PoolSys) (e : PEv) (hi : SInv s) :
+    SInv (s.ev e).1 ∧ ∀ b, (s.ev e).2 = some b → b ∉ s.inUse ∧ b ∉ s.pool.released := by
+  have skipInv : ∀ k, SInv { s with skip := k } := fun k => ⟨hi.pi, hi.resv, hi.uniq⟩
+  cases e with
+  | abeg h v =>
+      simp only [PoolSys.ev]
+      split
+      · exact ⟨skipInv _, by simp⟩
+      · split
+        · rename_i hslot
+          split
+          · exact ⟨skipInv _, by simp⟩
+          · rename_i hres
+            have hres' : s.reserved h = false := by simpa using hres
+            have hA := PI_allocA s.pool s.inUse (nAlloc s) (nFree s) hi.pi
+            refine ⟨⟨?_, ?_, ?_⟩, ?_⟩
+            · have hp : (s.pool.allocA.2 :: s.inUse).Perm (s.liveBlocks ++ s.pool.allocA.2 :: s.stack.map Frame.blk) :=
+                List.perm_middle.symm
+              show PI s.pool.allocA.1.ctorEnter (s.liveBlocks ++ s.pool.allocA.2 :: s.stack.map Frame.blk)
+                (List.countP Frame.isAlloc (Frame.allocF h v s.pool.allocA.2 :: s.stack))
+                (List.countP (fun f => !f.isAlloc) (Frame.allocF h v s.pool.allocA.2 :: s.stack))
+              rw [cntA_allocF, cntF_allocF]
+              exact PI_perm _ _ _ _ _ hA.1 hp
+            · intro f h' hf ht
+              simp only [List.mem_cons] at hf
+              rcases hf with hf | hf
+              · subst hf; simp [Frame.target] at ht; subst ht; exact hslot
+              · exact hi.resv f h' hf ht
+            · simp only [List.pairwise_cons]
+              refine ⟨?_, hi.uniq⟩
+              intro g hg
+              right
+              simp only [Frame.target]
+              exact fun e => reserved_false s h hres' g hg e.symm
+            · intro b hb; simp at hb; subst hb; exact ⟨hA.2.1, hA.2.2⟩
+        · exact ⟨skipInv _, by simp⟩
+  | aend =>
+      simp only [PoolSys.ev]
+      split
+      · exact ⟨skipInv _, by simp⟩
+      · split
+        · rename_i h v b rest hst
+          refine ⟨⟨?_, ?_, ?_⟩, by simp⟩
+          · have hslot : s.slots[h]? = some none := hi.resv (.allocF h v b) h (by rw [hst]; simp) rfl
+            have hpi : PI s.pool (s.liveBlocks ++ b :: rest.map Frame.blk)
+                (List.countP Frame.isAlloc rest + 1) (List.countP (fun f => !f.isAlloc) rest) := by
+              have := hi.pi
+              simp only [PoolSys.inUse, nAlloc, nFree, hst, List.map_cons, cntA_allocF, cntF_allocF] at this
+              exact this
+            have hB := PI_allocB s.pool _ _ _ hpi
+            have hperm : (s.liveBlocks ++ b :: rest.map Frame.blk).Perm
+                (blocksOf (s.slots.set h (some (b, v))) ++ rest.map Frame.blk) := by
+              have h1 := blocksOf_set_some s.slots h b v hslot
+              exact (List.perm_middle).trans (List.Perm.append_right _ h1.symm)
+            exact PI_perm _ _ _ _ _ hB hperm
+          · intro f h' hf ht
+            have hf' : f ∈ s.stack := by rw [hst]; exact List.mem_cons_of_mem _ hf
+            have hne : h' ≠ h := by
+              intro e; subst e
+              have hu := hi.uniq; rw [hst, List.pairwise_cons] at hu
+              rcases hu.1 f hf with h0 | h0
+              · simp [Frame.target] at h0
+              · exact h0 (by show some h' = f.target; rw [ht])
+            simp only
+            rw [List.getElem?_set_ne (fun e => hne e.symm)]
+            exact hi.resv f h' hf' ht
+          · have hu := hi.uniq; rw [hst, List.pairwise_cons] at hu; exact hu.2
+        · exact ⟨hi, by simp⟩
+  | fbeg h =>
+      simp only [PoolSys.ev]
+      split
+      · exact ⟨skipInv _, by simp⟩
+      · split
+        · rename_i b v hslot
+          refine ⟨⟨?_, ?_, ?_⟩, by simp⟩
+          · have hD := PI_dtorEnter s.pool s.inUse (nAlloc s) (nFree s) hi.pi
+            have hperm : s.inUse.Perm (blocksOf (s.slots.set h none) ++ b :: s.stack.map Frame.blk) := by
+              have h1 := blocksOf_set_none s.slots h b v hslot
+              simp only [PoolSys.inUse, liveBlocks_eq]
+              exact (List.Perm.append_right _ h1).trans List.perm_middle.symm
+            show PI s.pool.dtorEnter (blocksOf (s.slots.set h none) ++ b :: s.stack.map Frame.blk)
+              (List.countP Frame.isAlloc (Frame.freeF h b :: s.stack)) (List.countP (fun f => !f.isAlloc) (Frame.freeF h b :: s.stack))
+            rw [cntA_freeF, cntF_freeF]
+            exact PI_perm _ _ _ _ _ hD hperm
+          · intro f h' hf ht
+            simp only [List.mem_cons] at hf
+            rcases hf with hf | hf
+            · subst hf; simp [Frame.target] at ht
+            · have := hi.resv f h' hf ht
+              by_cases e : h' = h
+              · subst e; rw [hslot] at this; cases this
+              · simp only; rw [List.getElem?_set_ne (fun e' => e e'.symm)]; exact this
+          · simp only [List.pairwise_cons]
+            exact ⟨fun g _ => Or.inl rfl, hi.uniq⟩
+        · exact ⟨skipInv _, by simp⟩
+  | fend =>
+      simp only [PoolSys.ev]
+      split
+      · exact ⟨skipInv _, by simp⟩
+      · split
+        · rename_i h b rest hst
+          refine ⟨⟨?_, ?_, ?_⟩, by simp⟩
+          · have hpi : PI s.pool (s.liveBlocks ++ b :: rest.map Frame.blk)
+                (List.countP Frame.isAlloc rest) (List.countP (fun f => !f.isAlloc) rest + 1) := by
+              have := hi.pi
+              simp only [PoolSys.inUse, nAlloc, nFree, hst, List.map_cons, cntA_freeF, cntF_freeF] at this
+              exact this
+            have hperm : (s.liveBlocks ++ b :: rest.map Frame.blk).Perm (b :: (s.liveBlocks ++ rest.map Frame.blk)) :=
+              List.perm_middle
+            exact PI_freeB s.pool _ _ _ b (PI_perm _ _ _ _ _ hpi hperm)
+          · intro f h' hf ht
+            exact hi.resv f h' (by rw [hst]; exact List.mem_cons_of_mem _ hf) ht
+          · have hu := hi.uniq; rw [hst, List.pairwise_cons] at hu; exact hu.2
+        · exact ⟨hi, by simp⟩
+
+theorem runEvs_inv (s : PoolSys) (es : List PEv) (hi : SInv s) : SInv (s.runEvs es) := by
+  induction es generalizing s with
+  | nil => exact hi
+  | cons e es ih => exact ih _ (ev_inv s e hi).1
+
+/-- freeing the live object in slot `h` (a destructor that does not call the pool) -/
+theorem free_slot_inv (s : PoolSys) (h b v : Nat) (hi : SInv s) (hh : s.slots[h]? = some (some (b, v))) :
+    SInv { s with pool := s.pool.free b, slots := s.slots.set h none } := by
+  refine ⟨?_, ?_, hi.uniq⟩
+  · have hD := PI_dtorEnter s.pool s.inUse (nAlloc s) (nFree s) hi.pi
+    have hperm : s.inUse.Perm (b :: (blocksOf (s.slots.set h none) ++ s.stack.map Frame.blk)) := by
+      have h1 := blocksOf_set_none s.slots h b v hh
+      simp only [PoolSys.inUse, liveBlocks_eq]
+      exact List.Perm.append_right _ h1
+    exact PI_freeB _ _ _ _ b (PI_perm _ _ _ _ _ hD hperm)
+  · intro f h' hf ht
+    have := hi.resv f h' hf ht
+    by_cases e : h' = h
+    · subst e; rw [hh] at this; cases this
+    · simp only; rw [List.getElem?_set_ne (fun e' => e e'.symm)]; exact this
+
+theorem freeSlots_inv (s : PoolSys) (hs : List Nat) (hi : SInv s) : SInv (s.freeSlots hs) := by
   induction hs generalizing s with
   | nil => exact hi
   | cons h hs ih =>
       unfold PoolSys.freeSlots
       split
       · rename_i b v hh
-        exact ih _ (free_slot_inv s h b v hi hh).1
+        exact ih _ (free_slot_inv s h b v hi hh)
       · exact ih _ hi
+
+theorem freeSlots_stack (s : PoolSys) (hs : List Nat) : (s.freeSlots hs).stack = s.stack := by
+  induction hs generalizing s with
+  | nil => rfl
+  | cons h hs ih => unfold PoolSys.freeSlots; split <;> simp [ih]
 
 theorem blocksOf_all_none (l : List (Option (Nat × Nat))) (h : ∀ k, k < l.length → l[k]? = some none) :
     blocksOf l = [] := by
@@ -294,51 +450,72 @@ theorem freeSlots_all_none (s : PoolSys) (hs : List Nat)
           · exact Or.inl h'
         · exact Or.inr h'
 
-theorem renew_inv (s : PoolSys) (k : Nat) (hi : PInv s) (hempty : s.liveBlocks = []) :
-    PInv { s with pool := s.pool.renew k } := by
-  have hi' : PI s.pool s.liveBlocks := hi
-  show PI (s.pool.renew k) s.liveBlocks
-  refine ⟨by simp [Pool.renew], hi'.liveNodup, by simp [Pool.renew], ?_, ?_, rfl, by simp [Pool.renew], hi'.balance,
-    by simp [Pool.renew, hempty], by simp [hempty], by simp [Pool.renew]⟩
-  · intro b hb
-    simp [Pool.renew] at hb ⊢
-    rcases hb with hb | hb | hb
-    · exact hi'.fresh b (Or.inr (Or.inl hb))
-    · exact hi'.fresh b (Or.inl hb)
-    · exact hi'.fresh b (Or.inr (Or.inr hb))
-  · intro b hb
-    simp [Pool.renew] at hb ⊢
-    rcases hb with hb | hb
-    · exact hi'.disjoint b hb
-    · exact (hi'.relDisj b hb).2
-
-theorem renew_step_inv (s : PoolSys) (k : Nat) (hi : PInv s) : PInv (s.step (.renew k)).1 := by
-  simp only [PoolSys.step]
-  have h1 := freeSlots_inv s (List.range s.slots.length) hi
-  apply renew_inv _ k h1
-  rw [liveBlocks_eq]
-  apply blocksOf_all_none
-  apply freeSlots_all_none
-  intro j hj; left; exact List.mem_range.2 hj
-
-/-- `~ObjectPool()` while objects are live: their blocks are neither parked nor returned, so nothing
-the destructor frees is still in use; no destructor of `T` runs — the objects are abandoned -/
-theorem drop_step_inv (s : PoolSys) (k : Nat) (hi : PInv s) : PInv (s.step (.drop k)).1 := by
-  have hi' : PI s.pool s.liveBlocks := hi
-  have he : ({ pool := { s.pool.renew k with leaked := s.pool.leaked + s.liveBlocks.length },
-               slots := List.replicate s.slots.length none } : PoolSys).liveBlocks = [] := by
-    rw [liveBlocks_eq]; apply blocksOf_all_none
-    intro j hj; simp at hj; simp [List.getElem?_replicate, hj]
-  simp only [PoolSys.step]
-  unfold PInv
-  rw [he]
+theorem renew_pi (p : Pool) (k : Nat) (hi : PI p [] 0 0) : PI (p.renew k) [] 0 0 := by
   refine ⟨by simp [Pool.renew], by simp, by simp, ?_, by simp [Pool.renew], rfl, by simp [Pool.renew], ?_, by simp [Pool.renew],
     by simp, by simp [Pool.renew]⟩
   · intro b hb
     simp [Pool.renew] at hb ⊢
     rcases hb with hb | hb
-    · exact hi'.fresh b (Or.inl hb)
-    · exact hi'.fresh b (Or.inr (Or.inr hb))
-  · have := hi'.balance; simp [Pool.renew]; omega
+    · exact hi.fresh b (Or.inl hb)
+    · exact hi.fresh b (Or.inr (Or.inr hb))
+  · have := hi.balance; simpa [Pool.renew] using this
+
+theorem pool_step_inv (s : PoolSys) (op : PoolOp) (hi : SInv s) : SInv (s.step op) := by
+  cases op with
+  | evs l => exact runEvs_inv s l hi
+  | renew k =>
+      simp only [PoolSys.step]
+      split
+      · exact hi
+      · rename_i hst
+        have hst' : s.stack = [] := by simpa using hst
+        have h1 := freeSlots_inv s (List.range s.slots.length) hi
+        have hstk := freeSlots_stack s (List.range s.slots.length)
+        have hempty : (s.freeSlots (List.range s.slots.length)).liveBlocks = [] := by
+          rw [liveBlocks_eq]
+          apply blocksOf_all_none
+          apply freeSlots_all_none
+          intro j hj; left; exact List.mem_range.2 hj
+        have hpi := h1.pi
+        simp only [PoolSys.inUse, hempty, hstk, hst', nAlloc, nFree, List.map_nil, List.append_nil, List.countP_nil] at hpi
+        refine ⟨?_, ?_, ?_⟩
+        · have := renew_pi _ k hpi
+          show PI _ ((s.freeSlots (List.range s.slots.length)).liveBlocks ++ List.map Frame.blk (s.freeSlots (List.range s.slots.length)).stack)
+            (List.countP Frame.isAlloc (s.freeSlots (List.range s.slots.length)).stack)
+            (List.countP (fun f => !f.isAlloc) (s.freeSlots (List.range s.slots.length)).stack)
+          rw [hempty, hstk, hst']
+          exact this
+        · intro f h hf; simp only [hstk, hst'] at hf; cases hf
+        · simp only [hstk, hst']; exact List.Pairwise.nil
+  | drop k =>
+      simp only [PoolSys.step]
+      split
+      · exact hi
+      · rename_i hst
+        have hst' : s.stack = [] := by simpa using hst
+        have hpi := hi.pi
+        simp only [PoolSys.inUse, hst', nAlloc, nFree, List.map_nil, List.append_nil, List.countP_nil] at hpi
+        have he : blocksOf (List.replicate s.slots.length (none : Option (Nat × Nat))) = [] := by
+          apply blocksOf_all_none
+          intro j hj; simp at hj; simp [hj]
+        refine ⟨?_, ?_, ?_⟩
+        · simp only [PoolSys.inUse, PoolSys.liveBlocks, nAlloc, nFree, hst', List.map_nil, List.append_nil, List.countP_nil]
+          have he' : List.filterMap (fun o : Option (Nat × Nat) => o.map (·.1)) (List.replicate s.slots.length none) = [] := he
+          rw [he']
+          refine ⟨by simp [Pool.renew], by simp, by simp, ?_, by simp [Pool.renew], rfl, by simp [Pool.renew], ?_, by simp [Pool.renew],
+            by simp, by simp [Pool.renew]⟩
+          · intro b hb
+            simp [Pool.renew] at hb ⊢
+            rcases hb with hb | hb
+            · exact hpi.fresh b (Or.inl hb)
+            · exact hpi.fresh b (Or.inr (Or.inr hb))
+          · have := hpi.balance; simp [Pool.renew, PoolSys.liveBlocks] at this ⊢; omega
+        · intro f h hf; simp only [hst'] at hf; cases hf
+        · simp only [hst']; exact List.Pairwise.nil
+
+theorem pool_run_inv (s : PoolSys) (ops : List PoolOp) (hi : SInv s) : SInv (s.run ops) := by
+  induction ops generalizing s with
+  | nil => exact hi
+  | cons op ops ih => exact ih _ (pool_step_inv s op hi)
 
 end Tbox.C08
